@@ -196,7 +196,7 @@ func c05GenTyped(g *Gen, typ string, depth int) c05Doc {
 			m[term] = n
 			fv.SetInt(int64(n))
 		case f.Type.Kind() == reflect.Float64:
-			x := float64(g.Intn(360000)-180000) / 1000
+			x := float64(g.Intn(360000000)-180000000) / 1e6 // six decimals: more digits than a float32 holds
 			if x == 0 {
 				x = 1.5
 			}
